@@ -149,6 +149,25 @@ def run(ctx):
             obs.sample({'recipe': doc})
     for k in range(ctx.share(ctx.pick(4000, 100000))):
         check_case(stress_doc(rng), obs, 'json_stress')
+    # codec-name spellings: every spelling of the BOM-emitting codecs and a
+    # sample of the others (the spelling question itself is C15's)
+    from mon.gen import codecs_cat
+    items = []
+    for canon in sorted(codecs_cat.catalogue()):
+        sps = codecs_cat.spellings(canon)
+        if not ''.encode(canon):
+            sps = sps[:1] + rng.sample(sps[1:], min(len(sps) - 1,
+                                                    ctx.pick(2, 8)))
+        items.extend((canon, sp) for sp in sps)
+    for i, (canon, sp) in enumerate(items):
+        if not ctx.mine(i):
+            continue
+        t = texts.restrict(rng.choice(['no final newline', 'a\nb\n',
+                                       'd\r\ne\r\n', '\ufeffx\n']), canon)
+        via = ('own', 'change', 'main')[i % 3]
+        check_case(sweep_doc(sp, rng.choice([None, 0, 4]),
+                             rng.choice([None, 'unix', 'dos']), t, via),
+                   obs, 'spelling')
 
 
 def replay(case, obs):
